@@ -138,6 +138,10 @@ func (w *Writer) Write(rec any) error {
 }
 
 func (w *Writer) Close() error {
+	if mutLogW != nil && w != mutLogW {
+		// the observation writer of a harness command is closed last: flush the traffic monitor with it
+		defer FlushMutLog()
+	}
 	w.mu.Lock()
 	defer w.mu.Unlock()
 	if err := w.w.Flush(); err != nil {
